@@ -230,6 +230,7 @@ type RunState struct {
 	solverS  float64
 	maxPaths int
 	truncated map[string]bool
+	stoppedEarly map[string]bool
 }
 
 func (rs *RunState) explore(h *ssa.Function, nworkers int) {
@@ -240,6 +241,7 @@ func (rs *RunState) explore(h *ssa.Function, nworkers int) {
 	cond := sync.NewCond(&mu)
 	stack := [][]int{{}}
 	inflight := 0
+	stopAt := 0
 	done := false
 	var wg sync.WaitGroup
 	if os.Getenv("POLYSYM_PROGRESS") != "" {
@@ -323,6 +325,18 @@ func (rs *RunState) explore(h *ssa.Function, nworkers int) {
 				}
 				if res.sample != nil && len(st.Samples) < 3 {
 					st.Samples = append(st.Samples, res.sample)
+				}
+				// once a new violation has been seen, a few hundred more paths are explored
+				// (to collect other clauses) and the harness stops: the verdict is VIOLATION anyway
+				for _, v := range res.viols {
+					if v.Finding == "" && stopAt == 0 {
+						stopAt = st.Paths + 400
+					}
+				}
+				if stopAt > 0 && st.Paths >= stopAt && os.Getenv("POLYSYM_NO_EARLY_STOP") == "" {
+					stack = nil
+					res.alts = nil
+					rs.stoppedEarly[h.Name()] = true
 				}
 				if st.Paths >= rs.maxPaths {
 					if len(stack) > 0 || len(res.alts) > 0 {
@@ -651,7 +665,7 @@ func runProperty(prop, tier string) int {
 		nworkers, _ = strconv.Atoi(s)
 	}
 	rs := &RunState{eng: eng, stats: map[string]*HarnessStats{}, covers: map[string]bool{}, seen: map[string]bool{}, asserts: map[string]bool{},
-		fns: map[string]bool{}, models: map[string]bool{}, natives: map[string]bool{}, stubs: map[string]bool{}, witnessed: map[string]bool{}, maxPaths: 3000000, truncated: map[string]bool{}}
+		fns: map[string]bool{}, models: map[string]bool{}, natives: map[string]bool{}, stubs: map[string]bool{}, witnessed: map[string]bool{}, maxPaths: 3000000, truncated: map[string]bool{}, stoppedEarly: map[string]bool{}}
 	if s := os.Getenv("POLYSYM_MAXPATHS"); s != "" {
 		rs.maxPaths, _ = strconv.Atoi(s)
 	}
@@ -939,6 +953,7 @@ func runProperty(prop, tier string) int {
 		"covers":                        map[string]interface{}{"declared": sortedKeys(rs.covers), "satisfied": sortedKeys(rs.seen)},
 		"assert_sites_reached":          sortedKeys(rs.asserts),
 		"known_findings_witnessed":      sortedKeys(rs.witnessed),
+		"stopped_early_after_violation": sortedKeys(rs.stoppedEarly),
 		"inconclusive":                  inconclusive,
 		"engine_mismatch":               mismatch,
 		"load_s":                        loadS,
